@@ -18,6 +18,7 @@ import (
 	"reflect"
 
 	"cuelang.org/go/internal/core/adt"
+	"cuelang.org/go/internal/simhook"
 )
 
 func (x *Runtime) StoreType(t reflect.Type, v *adt.Vertex) {
@@ -33,10 +34,12 @@ func (x *Runtime) LoadType(t reflect.Type) (*adt.Vertex, bool) {
 }
 
 func (x *index) StoreType(t reflect.Type, v *adt.Vertex) {
+	simhook.Yield("runtime.StoreType")
 	x.typeCache.Store(t, v)
 }
 
 func (x *index) LoadType(t reflect.Type) (v interface{}, ok bool) {
+	simhook.Yield("runtime.LoadType")
 	v, ok = x.typeCache.Load(t)
 	return v, ok
 }
